@@ -142,7 +142,7 @@ def drawn_cases(draw, tier):
     source = draw(st.sampled_from(["mask", "mask", "local", "user"]))
     t = draw(st.sampled_from([1, 1, 1, 1, 2, 2, 2, 2, 3, 3, 4]))
     if source == "mask":
-        k = draw(st.sampled_from([3, 3, 4] if tier == "quick" else [3, 4, 4, 5]))
+        k = draw(st.sampled_from([3, 3, 4] * 16 + [8] if tier == "quick" else [3, 4, 4, 5] * 4 + [6, 8]))
         densities = {1: [0.3, 0.45, 0.6, 0.75, 0.9], 2: [0.6, 0.7, 0.8, 0.9, 0.97], 3: [0.85, 0.92, 0.97, 0.99],
                      4: [0.97, 1.0]}[t]
         spec = {"mask": "".join(map(str, draw(gens.masks(k, densities))))}
